@@ -1,3 +1,4 @@
+import Fpdec.Kernels.DecOps
 import Fpdec.Kernels.DecMul
 import Fpdec.Kernels.WideFits
 import Fpdec.Lemmas.Scale
@@ -562,5 +563,21 @@ theorem kernel_checked_div_rounded (prof : Profile) (tm : Mode) (a : Int) (p : N
     (ha : fitsI128 a = true) (hp : p ≤ 38) :
     Gen.K.checked_div_rounded prof tm a p b q n = checkedDivRounded prof tm a p b q n :=
   Kernels.checked_div_rounded_eq prof tm a p b q n ha hp
+
+/-- the Decimal-by-Decimal operator bodies of mul.rs, checked_mul.rs and mul_rounded.rs, as translated on this run -/
+theorem kernel_decimal_mul (prof : Profile) (tm : Mode) (x y : Dec) : Gen.K.decimal_mul prof tm x y = mul prof tm x y :=
+  Kernels.decimal_mul_eq prof tm x y
+theorem kernel_decimal_checked_mul (prof : Profile) (x y : Dec) : Gen.K.decimal_checked_mul prof x y = checkedMul prof x y :=
+  Kernels.decimal_checked_mul_eq prof x y
+theorem kernel_decimal_mul_rounded (prof : Profile) (tm : Mode) (x y : Dec) (n : Nat) (hn : n < 256) :
+    Gen.K.decimal_mul_rounded prof tm x y n = mulRounded prof tm x y n := Kernels.decimal_mul_rounded_eq prof tm x y n hn
+/-- the Decimal-by-Decimal operator bodies of div.rs, checked_div.rs and div_rounded.rs, as translated on this run -/
+theorem kernel_decimal_div (prof : Profile) (tm : Mode) (x y : Dec) (hx : fitsI128 x.coeff = true) (hp : x.nfrac ≤ 38) :
+    Gen.K.decimal_div prof tm x y = div prof tm x y := Kernels.decimal_div_eq prof tm x y hx hp
+theorem kernel_decimal_checked_div (prof : Profile) (tm : Mode) (x y : Dec) (hx : fitsI128 x.coeff = true) (hp : x.nfrac ≤ 38) :
+    Gen.K.decimal_checked_div prof tm x y = checkedDiv prof tm x y := Kernels.decimal_checked_div_eq prof tm x y hx hp
+theorem kernel_decimal_div_rounded (prof : Profile) (tm : Mode) (x y : Dec) (n : Nat) (hx : fitsI128 x.coeff = true)
+    (hp : x.nfrac ≤ 38) :
+    Gen.K.decimal_div_rounded prof tm x y n = divRounded prof tm x y n := Kernels.decimal_div_rounded_eq prof tm x y n hx hp
 
 end Fpdec.Props.C04
